@@ -50,13 +50,17 @@
 //!                Executed clause by clause, every step judged on the real outputs against the step before it
 //!                (rows = direct engine call; ORDER BY = sorted permutation; OFFSET o = minus the first o rows;
 //!                LIMIT k = first k rows), the statement's answer compared with the model run on the direct call's
-//!                rows (xsel.model; `outside` where the comparator of sort_rows is not an order).  xsel.directed runs
-//!                FIRST (every shape × every boundary pair on 0..5 rows; one row + LIMIT 0 is the first table), then
+//!                rows (xsel.model, every row list).  xsel.directed.regression runs FIRST (/repo 1133d8d8: ORDER BY
+//!                over outer-join rows with a sort column missing in one row and NULL in another — 21 rows, the
+//!                statement of the fixed finding, then every outer join × sort column × direction × NULLS clause;
+//!                oracle class …exec_select_with_joins/order_by_panics_on_outer_join_rows), then xsel.directed
+//!                (every shape × every boundary pair on 0..5 rows; one row + LIMIT 0 is the first table), then
 //!                aggregates / GROUP BY / HAVING vs the engine's aggregate calls, INSERT / UPDATE / DELETE results and
 //!                table states on twins, NODE LIST / EDGE LIST / FIND / SHOW EMBEDDINGS / SIMILAR windows, NEIGHBORS,
 //!                PATH (xsel.family.*); xsel.random after exec.  Failing statements are shrunk (rows, clauses, numbers).
 //!                xsel.candidate.*: clauses that are parsed and not (or not as written) applied on the unchanged tree —
-//!                observations, re-established at every run.
+//!                SQL-feature gaps outside the property's quantifier: observations, re-established at every run.
+//!   Errors on a compared line are variant + position + expected token, never message wording (see `canon_err`).
 use nverif::*;
 use serde_json::json;
 use std::io::{BufRead, BufReader, Write};
@@ -425,15 +429,83 @@ fn sx(e: &np::Expr) -> String {
     }
 }
 
+// ---- errors on a compared line: variant, position, expected TOKEN — never message wording (DESIGN I.2)
+//
+// `ParseErrorKind` carries two kinds of free text: the `expected` description of UnexpectedToken / UnexpectedEof and
+// the message of InvalidSyntax.  Neither reaches a compared line:
+//  * `expected` is either the spelling of a token kind (`expect(&kind)` passes `kind.as_str()`; recognised by
+//    comparing with `as_str()` of the SAME `TokenKind` values here, or by lexing it back into exactly that one
+//    token) — that is structure and is compared — or a description written out in the parser ("expression",
+//    "identifier", "end of expression", …), which is wording: ONE token `desc` on both sides.
+//  * InvalidSyntax has no discriminator besides its message: `err invalid <position>` on both sides.
+// The model's answer keeps the finer reason (which description, which InvalidSyntax reason); it is what the
+// distribution keys (`….result.err_unexpected_expression`, `….err_invalid_qualwild`, …) are computed from when
+// implementation and model agree (`cmp_parse`), so that the statistics do not depend on wording either.
+
+/// the token kinds the models name in an `expected` position, with the models' names
+fn expected_token_table() -> Vec<(np::TokenKind, &'static str)> {
+    use np::TokenKind as TK;
+    vec![
+        (TK::RParen, ")"), (TK::RBracket, "]"), (TK::LParen, "("), (TK::Null, "NULL"), (TK::And, "AND"), (TK::Then, "THEN"),
+        (TK::End, "END"), (TK::Select, "SELECT"), (TK::Join, "JOIN"), (TK::By, "BY"), (TK::Last, "LAST"),
+    ]
+}
+
+fn exp_word(expected: &str) -> String {
+    for (k, name) in expected_token_table() {
+        if k.as_str() == expected {
+            return name.to_string();
+        }
+    }
+    // any other token kind: its spelling lexes back into exactly that token
+    let toks = np::tokenize(expected);
+    if toks.len() == 2 {
+        use np::TokenKind as TK;
+        let k = &toks[0].kind;
+        if !matches!(k, TK::Ident(_) | TK::Integer(_) | TK::Float(_) | TK::String(_) | TK::Error(_) | TK::Eof) && k.as_str() == expected {
+            return expected.replace(' ', "_");
+        }
+    }
+    "desc".to_string()
+}
+
+/// the descriptions the models name (Driver.lean showExpect / showSExpect / showFExpect / showCExpect)
+const MODEL_DESCRIPTIONS: [&str; 3] = ["expression", "identifier", "end_of_expression"];
+
+/// a model answer as it is compared: `err eof|unexpected <description> …` → `… desc …`, `err invalid <reason> <p>` →
+/// `err invalid <p>`; everything else unchanged
+fn collapse_err(ans: &str) -> String {
+    if !ans.starts_with("err ") {
+        return ans.to_string();
+    }
+    let mut w: Vec<&str> = ans.split(' ').collect();
+    match w[1] {
+        "eof" | "unexpected" if w.len() >= 3 && MODEL_DESCRIPTIONS.contains(&w[2]) => w[2] = "desc",
+        "invalid" if w.len() >= 4 => {
+            w.remove(2);
+        }
+        _ => {}
+    }
+    w.join(" ")
+}
+
+/// compare the implementation's line with the collapsed model answer; returns the line the distribution keys are
+/// computed from: the model's own (finer) answer when the two agree, the implementation's otherwise
+fn cmp_parse(rep: &mut Report, stream: &str, input: impl FnOnce() -> serde_json::Value, imp: String, model: &str) -> String {
+    if rep.compare(stream, input, &imp, &collapse_err(model)) {
+        model.to_string()
+    } else {
+        imp
+    }
+}
+
 fn canon_err(e: &np::ParseError, rd: &Rendered) -> String {
     let at = tok_index(rd, e.span.start.0 as usize);
     match &e.kind {
         ParseErrorKind::TooDeep => format!("err too_deep {at}"),
-        ParseErrorKind::UnexpectedEof { expected } => format!("err eof {}", expected.replace(' ', "_")),
-        ParseErrorKind::UnexpectedToken { expected, .. } => {
-            format!("err unexpected {} {at}", expected.replace(' ', "_"))
-        }
-        other => format!("err other:{other:?} {at}"),
+        ParseErrorKind::UnexpectedEof { expected } => format!("err eof {}", exp_word(expected)),
+        ParseErrorKind::UnexpectedToken { expected, .. } => format!("err unexpected {} {at}", exp_word(expected)),
+        other => format!("err other:{} {at}", kind_tag(other)),
     }
 }
 
@@ -473,8 +545,8 @@ fn probe_stmt_depth_limit(m: &mut Model, rep: &mut Report, rng: &Rng) {
             let rd = render(&words, &atoms, &mut r, false);
             let imp = real_parse_where(&rd);
             let line = words.join(" ");
-            let model = expand(&m.ask(&format!("parse {line}")), &atom_sx);
-            let old = expand(&m.ask(&format!("parse_nolimit {line}")), &atom_sx);
+            let model = collapse_err(&expand(&m.ask(&format!("parse {line}")), &atom_sx));
+            let old = collapse_err(&expand(&m.ask(&format!("parse_nolimit {line}")), &atom_sx));
             rep.case("stmt.depth_limit_probe", Some(&format!("{name}{n}")));
             rep.compare(
                 "stmt.depth_limit_probe",
@@ -614,14 +686,14 @@ fn tree_case(m: &mut Model, rep: &mut Report, r: &mut Rng, t: &T, natoms: usize,
         let nontrivial = imp.starts_with("ok (") && t.depth() >= 2;
         let s = format!("{stream}.{mode}");
         rep.case(&s, if nontrivial { Some(&key) } else { None });
-        rep.compare(&s, || json!({"text": rd.text, "tokens": words.join(" ")}), &imp, &model);
+        let imp = cmp_parse(rep, &s, || json!({"text": rd.text, "tokens": words.join(" ")}), imp, &model);
         rep.hit(&format!("expr.result.{}", imp.split(' ').take(2).collect::<Vec<_>>().join("_").replace(|c: char| !c.is_ascii_alphanumeric() && c != '_', "")));
         // --- statement parser (own Pratt copy)
         let simp = real_parse_where(&rd);
         let smodel = expand(&m.ask(&format!("{} {}", stmt_model_op(), words.join(" "))), &atom_sx);
         let s2 = format!("stmt.{mode}");
         rep.case(&s2, if nontrivial { Some(&key) } else { None });
-        rep.compare(&s2, || json!({"text": format!("{STMT_PREFIX}{}", rd.text), "tokens": words.join(" ")}), &simp, &smodel);
+        rep.compare(&s2, || json!({"text": format!("{STMT_PREFIX}{}", rd.text), "tokens": words.join(" ")}), &simp, &collapse_err(&smodel));
         // --- oracle on the implementation: the parse IS the generated tree
         let frames_mode: usize = m.ask(&format!("frames {mode} {pol}")).parse().unwrap_or(0);
         if frames_mode <= 64 && imp != expected {
@@ -707,7 +779,7 @@ fn soup_case(m: &mut Model, rep: &mut Report, r: &mut Rng, words: Vec<String>, s
     let model = expand(&m.ask(&format!("parse {}", words.join(" "))), &atom_sx);
     let key = rd.text.clone();
     rep.case(stream, if words.len() >= 3 { Some(&key) } else { None });
-    rep.compare(stream, || json!({"text": rd.text, "tokens": words.join(" ")}), &imp, &model);
+    let imp = cmp_parse(rep, stream, || json!({"text": rd.text, "tokens": words.join(" ")}), imp, &model);
     let tag: String = imp.split(' ').take(3).enumerate().filter(|(i, w)| *i < 2 || !w.chars().all(|c| c.is_ascii_digit())).map(|(_, w)| w).collect::<Vec<_>>().join("_");
     let tag = if imp.starts_with("ok") { "ok".to_string() } else { tag };
     rep.hit(&format!("{stream}.result.{}", tag.replace(')', "rparen")));
@@ -736,7 +808,7 @@ fn soup_case(m: &mut Model, rep: &mut Report, r: &mut Rng, words: Vec<String>, s
         let simp = real_parse_where(&rd);
         let s2 = format!("{stream}.stmt");
         rep.case(&s2, None);
-        rep.compare(&s2, || json!({"text": format!("{STMT_PREFIX}{}", rd.text)}), &simp, &smodel);
+        rep.compare(&s2, || json!({"text": format!("{STMT_PREFIX}{}", rd.text)}), &simp, &collapse_err(&smodel));
     }
     if rep.samples.len() < 8 && imp.starts_with("err") && words.len() > 4 {
         rep.sample(json!({"stream": stream, "text": rd.text, "real": imp, "model": model}));
@@ -2086,7 +2158,7 @@ fn select_case(m: &mut Model, rep: &mut Report, r: &mut Rng, words: &[String], s
         rep.hit(if imp.starts_with("ok") { "select.outside.real_ok" } else { "select.outside.real_err" });
         return (imp, model);
     }
-    rep.compare(stream, || json!({"text": rd.text, "tokens": words.join(" ")}), &imp, &model);
+    let imp = cmp_parse(rep, stream, || json!({"text": rd.text, "tokens": words.join(" ")}), imp, &model);
     let tag = if imp.starts_with("ok") {
         "ok".to_string()
     } else {
@@ -2536,7 +2608,7 @@ fn nest_case(m: &mut Model, rep: &mut Report, r: &mut Rng, words: &[String], str
         rep.hit(if imp.starts_with("ok") { "nest.outside.real_ok" } else { "nest.outside.real_err" });
         return (imp, model, rd);
     }
-    rep.compare(stream, || json!({"text": rd.text, "tokens": words.join(" ")}), &imp, &model);
+    let imp = cmp_parse(rep, stream, || json!({"text": rd.text, "tokens": words.join(" ")}), imp, &model);
     rep.hit(&format!("nest.result.{}", result_tag(&imp)));
     if rep.samples.len() < 14 && words.len() > 12 && r.chance(1, 40) {
         rep.sample(json!({"stream": stream, "text": rd.text, "real": &imp[..imp.len().min(300)], "model": &model[..model.len().min(300)]}));
@@ -2793,7 +2865,7 @@ fn nest_run(m: &mut Model, rep: &mut Report, r: &mut Rng, adv: &mut Adv, words: 
         let rd = nest_render(words, r, false, compact);
         let imp = nest_child(adv, rep, stream, &rd, what);
         let model = m.ask(&format!("nest {}", words.join(" ")));
-        rep.compare(stream, || json!({"text": rd.text, "gen": what, "via": "child process, 2 MiB stack"}), &imp, &model);
+        let imp = cmp_parse(rep, stream, || json!({"text": rd.text, "gen": what, "via": "child process, 2 MiB stack"}), imp, &model);
         rep.hit(&format!("nest.result.child.{}", result_tag(&imp)));
         (imp, rd)
     };
@@ -3578,18 +3650,8 @@ fn f_expand(ans: &str) -> String {
 fn f_canon_err(e: &np::ParseError, rd: &Rendered) -> String {
     let at = tok_index(rd, e.span.start.0 as usize);
     match &e.kind {
-        ParseErrorKind::InvalidSyntax(msg) => {
-            let tag = if msg.contains("qualified wildcard") {
-                "qualwild"
-            } else if msg.contains("at least one WHEN") {
-                "case_no_when"
-            } else if msg.contains("EXISTS") {
-                "exists"
-            } else {
-                "other"
-            };
-            format!("err invalid {tag} {at}")
-        }
+        // no discriminator besides the message: one compared token (see `collapse_err`)
+        ParseErrorKind::InvalidSyntax(_) => format!("err invalid {at}"),
         _ => canon_err(e, rd),
     }
 }
@@ -3644,7 +3706,7 @@ fn f_tokens_case(m: &mut Model, rep: &mut Report, r: &mut Rng, words: &[String],
     let model = f_expand(&m.ask(&format!("full expr {line}")));
     let s1 = format!("{stream}.expr");
     rep.case(&s1, if key && words.len() >= 3 { Some(&rd.text) } else { None });
-    rep.compare(&s1, || json!({"text": rd.text, "tokens": line}), &imp, &model);
+    let imp = cmp_parse(rep, &s1, || json!({"text": rd.text, "tokens": line}), imp, &model);
     rep.hit(&format!("full.result.{}", f_tag(&imp)));
     let simp = f_real_stmt(&rd);
     let smodel = f_expand(&m.ask(&format!("full stmt {line}")));
@@ -3653,8 +3715,8 @@ fn f_tokens_case(m: &mut Model, rep: &mut Report, r: &mut Rng, words: &[String],
     } else {
         let s2 = format!("{stream}.stmt");
         rep.case(&s2, None);
-        rep.compare(&s2, || json!({"text": format!("{STMT_PREFIX}{}", rd.text), "tokens": line}), &simp, &smodel);
-        rep.hit(&format!("full.stmt.result.{}", f_tag(&simp)));
+        let fine = cmp_parse(rep, &s2, || json!({"text": format!("{STMT_PREFIX}{}", rd.text), "tokens": line}), simp.clone(), &smodel);
+        rep.hit(&format!("full.stmt.result.{}", f_tag(&fine)));
     }
     if rep.samples.len() < 14 && words.len() > 6 && r.chance(1, 40) {
         rep.sample(json!({"stream": stream, "text": rd.text, "real": imp, "model": model}));
@@ -4073,6 +4135,19 @@ fn lex_enc(text: &str) -> String {
     out
 }
 
+/// a model answer of `lex` as it is compared: `err:<kind>@lo-hi` → `err@lo-hi` (DESIGN I.2: the kind of an error token
+/// exists in the implementation only as message wording)
+fn lex_collapse(model: &str) -> String {
+    model
+        .split(' ')
+        .map(|t| match (t.strip_prefix("err:"), t.find('@')) {
+            (Some(_), Some(at)) => format!("err{}", &t[at..]),
+            _ => t.to_string(),
+        })
+        .collect::<Vec<_>>()
+        .join(" ")
+}
+
 fn lex_canon(toks: &[np::Token]) -> String {
     use np::TokenKind as TK;
     toks.iter()
@@ -4083,20 +4158,9 @@ fn lex_canon(toks: &[np::Token]) -> String {
                 TK::Integer(v) => format!("int:{v}"),
                 TK::Float(_) => "float".to_string(),
                 TK::String(s) => format!("str:{}", s.chars().map(|c| (c as u32).to_string()).collect::<Vec<_>>().join(".")),
-                TK::Error(m) => format!(
-                    "err:{}",
-                    if m.starts_with("unterminated string") {
-                        "unterminated"
-                    } else if m.starts_with("invalid integer") {
-                        "integer"
-                    } else if m.starts_with("invalid float") {
-                        "float"
-                    } else if m.starts_with("unexpected character") {
-                        "char"
-                    } else {
-                        "other"
-                    }
-                ),
+                // `TokenKind::Error(String)` has no discriminator besides its message: one compared token `err`
+                // (with its span) on both sides, `lex_collapse`; the model's finer kind is a distribution key only
+                TK::Error(_) => "err".to_string(),
                 other => format!("name:{other:?}"),
             };
             format!("{k}@{}-{}", t.span.start.0, t.span.end.0)
@@ -4162,8 +4226,8 @@ fn lex_case(m: &mut Model, rep: &mut Report, text: &str, stream: &str) -> String
             }
             lex_oracles(rep, text, &a);
             for t in &a {
-                let tag = match &t.kind {
-                    np::TokenKind::Error(m) => format!("error.{}", m.split(':').next().unwrap_or("").replace(' ', "_")),
+                let tag: String = match &t.kind {
+                    np::TokenKind::Error(_) => "error".into(),
                     np::TokenKind::Ident(_) => "ident".into(),
                     np::TokenKind::Integer(_) => "integer".into(),
                     np::TokenKind::Float(_) => "float".into(),
@@ -4183,7 +4247,11 @@ fn lex_case(m: &mut Model, rep: &mut Report, text: &str, stream: &str) -> String
     };
     let model = m.ask(&format!("lex {}", lex_enc(text)));
     rep.case(stream, if text.len() >= 3 { Some(text) } else { None });
-    rep.compare(stream, || json!({"text": text}), &real, &model);
+    if rep.compare(stream, || json!({"text": text}), &real, &lex_collapse(&model)) {
+        for t in model.split(' ').filter_map(|t| t.strip_prefix("err:")) {
+            rep.hit(&format!("lex.kind.error.{}", t.split('@').next().unwrap_or("")));
+        }
+    }
     real
 }
 
@@ -4311,21 +4379,11 @@ fn t_canon_err(e: &np::ParseError, shift: usize) -> String {
     let at = (e.span.start.0 as usize).saturating_sub(shift);
     match &e.kind {
         ParseErrorKind::TooDeep => format!("err too_deep {at}"),
-        ParseErrorKind::UnexpectedEof { expected } => format!("err eof {} {at}", expected.replace(' ', "_")),
-        ParseErrorKind::UnexpectedToken { expected, .. } => format!("err unexpected {} {at}", expected.replace(' ', "_")),
-        ParseErrorKind::InvalidSyntax(msg) => {
-            let tag = if msg.contains("qualified wildcard") {
-                "qualwild"
-            } else if msg.contains("at least one WHEN") {
-                "case_no_when"
-            } else if msg.contains("EXISTS") {
-                "exists"
-            } else {
-                "other"
-            };
-            format!("err invalid {tag} {at}")
-        }
-        other => format!("err other:{other:?} {at}"),
+        ParseErrorKind::UnexpectedEof { expected } => format!("err eof {} {at}", exp_word(expected)),
+        ParseErrorKind::UnexpectedToken { expected, .. } => format!("err unexpected {} {at}", exp_word(expected)),
+        // no discriminator besides the message: one compared token (see `collapse_err`)
+        ParseErrorKind::InvalidSyntax(_) => format!("err invalid {at}"),
+        other => format!("err other:{} {at}", kind_tag(other)),
     }
 }
 
@@ -4357,7 +4415,7 @@ fn text_case(m: &mut Model, rep: &mut Report, text: &str, stream: &str) {
     let model = t_expand(&m.ask(&format!("ptext expr {enc}")), text);
     let s1 = format!("{stream}.expr");
     rep.case(&s1, if text.len() >= 3 { Some(text) } else { None });
-    rep.compare(&s1, || json!({"text": text}), &imp, &model);
+    let imp = cmp_parse(rep, &s1, || json!({"text": text}), imp, &model);
     rep.hit(&format!("text.result.{}", f_tag(&imp)));
     // statement parser
     if t_has_clause_keyword(text) {
@@ -4394,7 +4452,7 @@ fn text_case(m: &mut Model, rep: &mut Report, text: &str, stream: &str) {
     };
     let s2 = format!("{stream}.stmt");
     rep.case(&s2, None);
-    rep.compare(&s2, || json!({"text": full}), &simp, &smodel);
+    rep.compare(&s2, || json!({"text": full}), &simp, &collapse_err(&smodel));
 }
 
 const TEXT_PIECES: &[&str] = &[
@@ -4638,7 +4696,7 @@ fn c_case(m: &mut Model, rep: &mut Report, r: &mut Rng, words: &[String], stream
         return imp;
     }
     rep.case(stream, if words.len() >= 4 { Some(&rd.text) } else { None });
-    rep.compare(stream, || json!({"text": rd.text, "tokens": line}), &imp, &model);
+    let imp = cmp_parse(rep, stream, || json!({"text": rd.text, "tokens": line}), imp, &model);
     rep.hit(&format!("clause.result.{}", f_tag(&imp).replace("SELECT", "select_kw")));
     imp
 }
@@ -5340,7 +5398,7 @@ fn cmt_directed(m: &mut Model, rep: &mut Report) {
         let expected = if cmt_well_nested(c) { format!("ident@{n}-{} eof@{}-{}", n + 1, n + 1, n + 1) } else { "not a well-nested comment".to_string() };
         let model = m.ask(&format!("lex {}", lex_enc(&format!("{c}x"))));
         rep.case("cmt.reference_scanner_vs_model", Some(c));
-        rep.compare("cmt.reference_scanner_vs_model", || json!({"comment": c}), &expected, &model);
+        rep.compare("cmt.reference_scanner_vs_model", || json!({"comment": c}), &expected, &lex_collapse(&model));
     }
     // the regression's own four demonstrations first
     for (s, at, c) in [
@@ -5757,7 +5815,9 @@ fn x_direct(db: &XDb, st: &XStmt) -> XRows {
 /// NULLs go where the NULLS clause says; default NULLS LAST (ASC) / NULLS FIRST (DESC).  `None` = the statement has
 /// an item this oracle does not judge (explicit NULLS clause under DESC, sort column outside the select list: see
 /// the candidate-finding observations and ExecProps) — then only "permutation" is required here.
-fn x_doc_cmp(order: &[XOrd], a: &XB, b: &XB) -> Option<std::cmp::Ordering> {
+/// `join`: the rows are merged rows of a join statement; the select list of a join is not applied, so a cell that a
+/// merged row does not have is a column of the other table in an outer-join row without partner — SQL's NULL.
+fn x_doc_cmp(order: &[XOrd], a: &XB, b: &XB, join: bool) -> Option<std::cmp::Ordering> {
     use std::cmp::Ordering::*;
     for it in order {
         let ci = x_col_index(it.col)?;
@@ -5765,6 +5825,7 @@ fn x_doc_cmp(order: &[XOrd], a: &XB, b: &XB) -> Option<std::cmp::Ordering> {
         let kb = b.keys.iter().find(|(c, _)| *c == ci).map(|(_, k)| *k);
         let (ka, kb) = match (ka, kb) {
             (Some(x), Some(y)) => (x, y),
+            _ if join => (ka.unwrap_or(None), kb.unwrap_or(None)),
             _ => return None,
         };
         if it.desc && it.nulls.is_some() {
@@ -5801,11 +5862,10 @@ struct XEval {
     model: Option<(String, String)>,
     base_len: usize,
     final_len: usize,
-    /// some sort column is missing in one row of the engine's answer and NULL in another (outer join): the closure
-    /// of sort_rows is not an order on such rows (Exec.consistent = false), ORDER BY is not judged and the model
-    /// answers `outside`
-    inconsistent: bool,
-    order_panicked: bool,
+    /// some sort column is missing in one row of the engine's answer and NULL in another (outer join holding both a
+    /// NULL = NULL partner row and a row without partner; Exec.mixedCol).  Until /repo 1133d8d8 the closure of
+    /// sort_rows was not an order on such rows and sort_by panicked on 21 of them; they are judged like all others
+    mixed: bool,
 }
 
 fn xs_eval(db: &XDb, st: &XStmt) -> XEval {
@@ -5829,7 +5889,7 @@ fn xs_eval(db: &XDb, st: &XStmt) -> XEval {
     }
     // R1
     let has_order = !st.order.is_empty();
-    let inconsistent = match &base {
+    let mixed = match &base {
         Ok(b) => st.order.iter().any(|it| match x_col_index(it.col) {
             Some(ci) => {
                 let cell = |r: &XB| r.keys.iter().find(|(c, _)| *c == ci).map(|(_, k)| *k);
@@ -5842,14 +5902,22 @@ fn xs_eval(db: &XDb, st: &XStmt) -> XEval {
     let t1 = st.text(true, false, false);
     let r1 = if has_order { x_run(&db.q, &t1, join) } else { r0.clone() };
     let order_panicked = matches!(&r1, Err(e) if e.starts_with("panic"));
-    if has_order && !inconsistent {
+    if has_order && order_panicked && mixed && r0.is_ok() {
+        // regression of /repo 1133d8d8 (known_findings: fixed): kind computed from the trace — the statement without
+        // ORDER BY answers, the one with ORDER BY panics, and a sort column is missing in one row and NULL in another
+        viol.push((
+            format!("{site}/order_by_panics_on_outer_join_rows"),
+            format!("`{t1}` panicked ({}) on {} rows in which a sort column is missing in one row (no join partner) and NULL in another; without ORDER BY: {}",
+                r1.as_ref().err().map_or("", |e| e.as_str()), r0.as_ref().map_or(0, |v| v.len()), x_show(&r0)),
+        ));
+    } else if has_order {
         let ok = match (&r0, &r1) {
             (Ok(x), Ok(y)) => {
                 let mut cx: Vec<&String> = x.iter().map(|r| &r.canon).collect();
                 let mut cy: Vec<&String> = y.iter().map(|r| &r.canon).collect();
                 cx.sort();
                 cy.sort();
-                cx == cy && y.windows(2).all(|w| x_doc_cmp(&st.order, &w[0], &w[1]).map_or(true, |c| c != std::cmp::Ordering::Greater))
+                cx == cy && y.windows(2).all(|w| x_doc_cmp(&st.order, &w[0], &w[1], join).map_or(true, |c| c != std::cmp::Ordering::Greater))
             }
             (Err(_), Err(_)) => true,
             _ => false,
@@ -5863,7 +5931,7 @@ fn xs_eval(db: &XDb, st: &XStmt) -> XEval {
             // rows that tie on every item stay in the engine's order (ExecProps.order_by_keeps_ties_in_engine_order):
             // this is what makes `ORDER BY … LIMIT k OFFSET o` a function of the statement and the engine's answer
             let pos = |r: &XB| x.iter().position(|b| b.canon == r.canon);
-            let bad = y.windows(2).find(|w| x_doc_cmp(&st.order, &w[0], &w[1]) == Some(std::cmp::Ordering::Equal) && pos(&w[0]) > pos(&w[1]));
+            let bad = y.windows(2).find(|w| x_doc_cmp(&st.order, &w[0], &w[1], join) == Some(std::cmp::Ordering::Equal) && pos(&w[0]) > pos(&w[1]));
             if let Some(w) = bad {
                 viol.push((
                     format!("{site}/order_by_ties_are_not_in_engine_order"),
@@ -5922,13 +5990,14 @@ fn xs_eval(db: &XDb, st: &XStmt) -> XEval {
                         .collect();
                     format!("rows {}", if pos.is_empty() { "-".to_string() } else { pos.join(",") })
                 }
-                Err(e) => format!("error {}", e.chars().take(80).collect::<String>()),
+                // the kind only (panic / error variant), no message text on a compared line
+                Err(e) => format!("error {}", if e.starts_with("panic") { "panic".to_string() } else { e.split(' ').take(2).collect::<Vec<_>>().join(" ") }),
             };
             Some((line, real))
         }
         Err(_) => None,
     };
-    XEval { viol, model, base_len: base.as_ref().map_or(0, |b| b.len()), final_len: r3.as_ref().map_or(0, |v| v.len()), inconsistent, order_panicked }
+    XEval { viol, model, base_len: base.as_ref().map_or(0, |b| b.len()), final_len: r3.as_ref().map_or(0, |v| v.len()), mixed }
 }
 
 fn xs_fails(t: &[XRow], u: &[URow], st: &XStmt, class: &str) -> bool {
@@ -6080,16 +6149,15 @@ fn xs_case(m: &mut Model, rep: &mut Report, cx: &mut XCtx, db: &XDb, t: &[XRow],
             );
         }
     }
-    if ev.inconsistent {
-        rep.hit("xsel.order.rows_outside_the_comparators_order");
-        if ev.order_panicked {
-            rep.hit("xsel.candidate.order_by_panics_on_outer_join_rows");
+    if ev.mixed {
+        rep.hit("xsel.order.outer_join_rows_with_missing_and_null_sort_keys");
+        if ev.base_len > 20 {
+            rep.hit("xsel.order.outer_join_rows_with_missing_and_null_sort_keys.more_than_20_rows");
         }
     }
     if cx.model_on {
         if let Some((line, real)) = &ev.model {
             let ans = m.ask(line);
-            let real = if ev.inconsistent { &"outside".to_string() } else { real };
             if !rep.compare("xsel.model", || json!({"text": text, "tables": x_rows_json(t, u), "model_op": line}), real, &ans) {
                 cx.model_on = false;
             }
@@ -6152,8 +6220,56 @@ fn x_shapes() -> Vec<XStmt> {
     v
 }
 
+/// the tables of known_findings `…exec_select_with_joins/order_by_panics_on_outer_join_rows` (fixed, /repo 1133d8d8):
+/// 21 rows of t, u.a = [NULL, 1, 2] (+ `extra` rows of u without partner in t, for RIGHT / FULL joins)
+fn x_outer_join_tables(extra: bool) -> (Vec<XRow>, Vec<URow>) {
+    let ta: [Option<i64>; 21] = [Some(4), Some(3), Some(4), Some(1), Some(3), Some(4), Some(3), Some(1), Some(2), Some(1), None, Some(3), None, Some(4), None, Some(2), None, Some(2), Some(3), Some(2), Some(1)];
+    let t: Vec<XRow> = ta.iter().enumerate().map(|(i, a)| XRow { a: *a, b: if extra { if i % 5 == 0 { None } else { Some(i as i64 % 2) } } else { None }, name: None }).collect();
+    let mut u = vec![URow { a: None, w: 0 }, URow { a: Some(1), w: 1 }, URow { a: Some(2), w: 2 }];
+    if extra {
+        u.extend([URow { a: Some(9), w: 3 }, URow { a: None, w: 4 }, URow { a: Some(8), w: 5 }]);
+    }
+    (t, u)
+}
+
+/// Regression cases of repaired defects; they run before everything else of the xsel streams.
+/// /repo 1133d8d8: ORDER BY over the rows of an outer join in which a sort column is missing in one row and NULL in
+/// another.  The shortest history in which the repaired comparator is the only thing between the statement and a
+/// panic: more than 20 such rows (sort_by's small-slice path never notices an inconsistent comparator), exactly the
+/// statement of the finding first; then every outer join × sort column × direction × NULLS clause on those tables.
+fn xs_regressions(m: &mut Model, rep: &mut Report, cx: &mut XCtx) {
+    let base = XStmt { proj: None, join: None, cond: None, order: vec![], limit: XC::Absent, offset: XC::Absent };
+    let (t, u) = x_outer_join_tables(false);
+    let db = xdb(&t, &u);
+    let st = XStmt { join: Some("LEFT JOIN u ON t.a = u.a"), order: vec![x_ord("u.a", true, None)], ..base.clone() };
+    xs_case(m, rep, cx, &db, &t, &u, &st, "xsel.directed.regression");
+    let ev = xs_eval(&db, &st);
+    if ev.mixed && ev.base_len > 20 && ev.viol.is_empty() {
+        rep.hit("xsel.regression.order_by_on_outer_join_rows.sorted");
+    }
+    for extra in [false, true] {
+        let (t, u) = x_outer_join_tables(extra);
+        let db = xdb(&t, &u);
+        for join in ["LEFT JOIN u ON t.a = u.a", "RIGHT JOIN u ON t.a = u.a", "FULL JOIN u ON t.a = u.a", "LEFT OUTER JOIN u ON t.a = u.a"] {
+            for cols in [vec!["u.a"], vec!["t.a"], vec!["w"], vec!["b"], vec!["u.a", "t.b"], vec!["t.a", "u.w"]] {
+                for desc in [false, true] {
+                    for nulls in [None, Some(true), Some(false)] {
+                        let order = cols.iter().enumerate().map(|(i, c)| x_ord(c, desc != (i == 1), if i == 0 { nulls } else { None })).collect();
+                        let st = XStmt { join: Some(join), order, ..base.clone() };
+                        xs_case(m, rep, cx, &db, &t, &u, &st, "xsel.directed.regression");
+                    }
+                }
+            }
+        }
+        // windows of the ordered rows at the boundary between the NULL / missing block and the values
+        let st = XStmt { join: Some("FULL JOIN u ON t.a = u.a"), order: vec![x_ord("u.a", true, None)], limit: XC::Lit(7), offset: XC::Lit(3), ..base.clone() };
+        xs_case(m, rep, cx, &db, &t, &u, &st, "xsel.directed.regression");
+    }
+}
+
 fn xs_directed(m: &mut Model, rep: &mut Report, cx: &mut XCtx, rng: &Rng) {
     let mut r = rng.fork("xsel.directed");
+    xs_regressions(m, rep, cx);
     // the smallest history first: one row, LIMIT 0 (and its neighbours LIMIT 1, LIMIT 2), with and without a join
     for n in [1usize, 2, 0, 3, 4, 5] {
         let (t, u) = x_directed_rows(n);
@@ -6756,8 +6872,10 @@ fn xs_candidates(rep: &mut Report) {
                 "returned_rows": rows.len(), "distinct_rows": distinct.len(), "model": "ExecProps.distinct_is_read_by_no_execution_path"}));
         }
     }
-    // 2. sort_rows: DESC reverses the NULLS clause; a sort column missing in some rows and NULL in others is compared
-    //    `Greater` both ways round and `sort_by` panics on this 21-row LEFT JOIN
+    // 2. sort_rows: DESC reverses the NULLS clause.  (The third ORDER BY finding of the earlier rounds — a sort column
+    //    missing in some rows and NULL in others compared `Greater` both ways round, sort_by panicking on a 21-row LEFT
+    //    JOIN — is repaired by /repo 1133d8d8 and is now an oracle: xs_eval, class …/order_by_panics_on_outer_join_rows,
+    //    regression cases in xs_regressions.)
     let mut sort_cases = Vec::new();
     let text = "SELECT * FROM t ORDER BY a DESC NULLS FIRST";
     if let Ok(rows) = run(text, false) {
@@ -6766,21 +6884,6 @@ fn xs_candidates(rep: &mut Report) {
             rep.hit("xsel.candidate.desc_nulls_first_puts_nulls_last");
             sort_cases.push(json!({"candidate_finding": "query_router::QueryRouter::sort_rows/desc_reverses_the_nulls_clause", "text": text, "tables": x_rows_json(&t, &u),
                 "returned": x_show(&Ok(rows)), "note": "DESC NULLS LAST puts them first likewise", "model": "ExecProps.desc_nulls_first_puts_nulls_last_witness"}));
-        }
-    }
-    {
-        let ta: [Option<i64>; 21] = [Some(4), Some(3), Some(4), Some(1), Some(3), Some(4), Some(3), Some(1), Some(2), Some(1), None, Some(3), None, Some(4), None, Some(2), None, Some(2), Some(3), Some(2), Some(1)];
-        let t2: Vec<XRow> = ta.iter().map(|a| XRow { a: *a, b: None, name: None }).collect();
-        let u2 = vec![URow { a: None, w: 0 }, URow { a: Some(1), w: 1 }, URow { a: Some(2), w: 2 }];
-        let db2 = xdb(&t2, &u2);
-        let text = "SELECT * FROM t LEFT JOIN u ON t.a = u.a ORDER BY u.a DESC";
-        let out = x_run(&db2.q, text, true);
-        if matches!(&out, Err(e) if e.starts_with("panic")) {
-            rep.hit("xsel.candidate.order_by_panics_on_outer_join_rows");
-            sort_cases.push(json!({"candidate_finding": "query_router::QueryRouter::compare_values_with_nulls/not_a_total_order_sort_by_panics", "text": text,
-                "t.a": ta, "u.a": [null, 1, 2], "outcome": out.err(),
-                "why": "u.a is NULL in the rows of the NULL = NULL partners and missing in the rows without partner; (None, Some(Null)) and (Some(Null), None) both take the arm `(None | Some(Null), _)`",
-                "model": "ExecProps.order_by_comparator_is_not_an_order_on_outer_join_rows_witness", "proposed": "proposed/C15-order-by-null-total-order.diff"}));
         }
     }
     if !sort_cases.is_empty() {
@@ -6912,7 +7015,8 @@ fn main() {
         "xsel.family.aggregate", "xsel.family.group_by", "xsel.family.group_by_having", "xsel.family.delete_all", "xsel.family.delete_where",
         "xsel.family.update", "xsel.family.insert_rows", "xsel.family.insert_positional", "xsel.family.node_list", "xsel.family.edge_list",
         "xsel.family.find", "xsel.family.show_embeddings", "xsel.family.similar", "xsel.family.neighbors", "xsel.family.path",
-        "xsel.table.21_to_60_rows", "xsel.table.0_to_8_rows"] {
+        "xsel.table.21_to_60_rows", "xsel.table.0_to_8_rows", "xsel.order.outer_join_rows_with_missing_and_null_sort_keys",
+        "xsel.order.outer_join_rows_with_missing_and_null_sort_keys.more_than_20_rows", "xsel.regression.order_by_on_outer_join_rows.sorted"] {
         rep.expected_branches.push(k.to_string());
     }
     directed_known(&mut rep);
